@@ -23,9 +23,10 @@ from vf import core
 
 UNKNOWN = 100000
 TYPES = ("http", "ws", "tcp", "udp", "dns")
-# the code as it is reports modified() == True whenever a backup exists (see findings_proposed/C40.md);
-# VERIF_C40_MODIFIED_FIXED=1 selects the model variant of the repaired code (self-test with mutants/C40/F1_*.diff)
-MODIFIED_IGNORES_BACKUP_KEY = os.environ.get("VERIF_C40_MODIFIED_FIXED", "") == "1"
+# Before /repo commit ecff67684 modified() compared _backup with a get_state() that embeds the backup itself and so
+# was True whenever a backup existed (findings_proposed/C40.md).  The model describes the repaired code;
+# VERIF_C40_MODIFIED_OLD=1 selects the model variant of the old code (only to look at mutants/C40/M7_*.diff's drift).
+MODIFIED_IGNORES_BACKUP_KEY = os.environ.get("VERIF_C40_MODIFIED_OLD", "") != "1"
 
 
 # ------------------------------------------------------------------------------------------------------------------
@@ -477,6 +478,7 @@ class Check(core.PropertyCheck):
     MON = "Mon_BackupRevert"
     REQUIRED_WITNESSES = ("backup", "repeated_backup", "repeated_backup_after_edit", "revert_with_backup",
                           "revert_after_edit", "revert_without_backup", "modified_no_backup", "modified_differs",
+                          "modified_equal_to_backup",
                           "edit_back_to_backup", "copy", "copy_with_backup", "copy_of_copy", "edit_of_copy",
                           "edit_of_copied_original")
     REQUIRED_ACTIONS = ("Start", "Backup", "Edit", "Revert", "ModifiedQ", "Copy")
@@ -571,7 +573,7 @@ class Check(core.PropertyCheck):
                 elif c < 0.72:
                     ops.append(["revert", h])
                     has_bk.discard(h)
-                elif c < 0.82 and not (h in has_bk and not MODIFIED_IGNORES_BACKUP_KEY and rng.random() < 0.8):
+                elif c < 0.82:
                     ops.append(["modified", h])
                 elif nflows < 5:
                     ops.append(["copy", h])
